@@ -173,16 +173,16 @@ def param(ctx, v):
 
 
 class FakeGP:
-    def __init__(self, ctx, n, d):
+    def __init__(self, ctx, n, d, tag=''):
         self.ctx = ctx
         X = [[ctx.real('X%d_%d' % (j, c)) for c in range(d)] for j in range(n)]
         Y = [[ctx.real('Y%d' % j)] for j in range(n)]
         self.Xl, self.Yl = X, Y
         self.X, self.Y = ctx.array(X), ctx.array(Y)
-        self.var = ctx.real('kern_variance', 0, None, lo_open=True)
-        self.ls = ctx.real('lengthscale', 0, None, lo_open=True)
-        self.bias = ctx.real('bias', 0, None)
-        self.noise = ctx.real('noise', 0, None, lo_open=True)
+        self.var = ctx.real('kern_variance' + tag, 0, None, lo_open=True)
+        self.ls = ctx.real('lengthscale' + tag, 0, None, lo_open=True)
+        self.bias = ctx.real('bias' + tag, 0, None)
+        self.noise = ctx.real('noise' + tag, 0, None, lo_open=True)
         self.num_data = n
         gp = self
 
@@ -211,8 +211,8 @@ class FakeGP:
         self.Gaussian_noise = Lik()
         self.mean_function = None
         # Woodbury quantities: lower-triangular L (positive diagonal), W = L L^T, Winv = W^-1, wv = Winv Y
-        L = [[(ctx.real('L%d%d' % (a, b), 0, None, lo_open=True) if a == b else (ctx.real('L%d%d' % (a, b)) if b < a else 0))
-              for b in range(n)] for a in range(n)]
+        L = [[(ctx.real('L%d%d%s' % (a, b, tag), 0, None, lo_open=True) if a == b else
+               (ctx.real('L%d%d%s' % (a, b, tag)) if b < a else 0)) for b in range(n)] for a in range(n)]
         self.L = L
         self.W = [[Sum([L[a][k] * L[b][k] for k in range(n)]) for b in range(n)] for a in range(n)]
         if n == 1:
@@ -230,6 +230,12 @@ class FakeGP:
             woodbury_chol = ctx.array([[L[a][b] if b <= a else (SymX(core.realval(0)) if ctx.symbolic else 0.0) for b in range(n)]
                                        for a in range(n)])
         self.posterior = Posterior()
+
+    # slow path of the library (not compared here): placeholders of the right shape
+    def predict_noiseless(self, x):
+        return np.zeros((len(x), 1)), np.ones((len(x), 1))
+
+    predict = predict_noiseless
 
 
 def gp_env(ctx):
@@ -270,7 +276,11 @@ def h_fast_gp(ctx, n, d):
         x = [ctx.real('q%d' % c) for c in range(d)]
         mu, var = reg.predict(ctx.array([x]))
         gmu, gvar = reg.predictive_gradients(ctx.array([x]))
-    ctx.claim('shapes', np.shape(mu) == (1, 1) and np.shape(var) == (1, 1) and np.shape(gmu) == (1, d) and np.shape(gvar) == (1, d))
+    textbook_claims(ctx, '', gp, n, d, x, mu, var, gmu, gvar)
+
+
+def textbook_claims(ctx, tag, gp, n, d, x, mu, var, gmu, gvar):
+    ctx.claim(tag + 'shapes', np.shape(mu) == (1, 1) and np.shape(var) == (1, 1) and np.shape(gmu) == (1, d) and np.shape(gvar) == (1, d))
     # kernel values k(x, X_j) = variance * exp(-|x - X_j|^2 / (2 l^2)) + bias
     ref_args = [-Sum([(x[c] - gp.Xl[j][c]) * (x[c] - gp.Xl[j][c]) for c in range(d)]) / (2 * gp.ls * gp.ls) for j in range(n)]
     if ctx.symbolic:
@@ -285,7 +295,7 @@ def h_fast_gp(ctx, n, d):
                 if core.z3.is_rational_value(dd) and dd.numerator_as_long() == 0:
                     hit = SymX(r)
                     break
-            ctx.claim('kernel_exponent_%d_is_minus_squared_distance_over_2l2' % j, hit is not None)
+            ctx.claim(tag + 'kernel_exponent_%d_is_minus_squared_distance_over_2l2' % j, hit is not None)
             if hit is None:
                 return
             E.append(hit)
@@ -294,13 +304,40 @@ def h_fast_gp(ctx, n, d):
     k = [gp.var * E[j] + gp.bias for j in range(n)]
     mean_ref = Sum([k[j] * gp.wv[j][0] for j in range(n)])
     var_ref = gp.var + gp.bias - Sum([k[a] * gp.Winv[a][b] * k[b] for a in range(n) for b in range(n)]) + gp.noise
-    ctx.claim_poly('mean_is_k_times_woodbury_vector', mu[0, 0], mean_ref)
-    ctx.claim_poly('variance_is_prior_minus_explained_plus_noise', var[0, 0], var_ref)
+    ctx.claim_poly(tag + 'mean_is_k_times_woodbury_vector', mu[0, 0], mean_ref)
+    ctx.claim_poly(tag + 'variance_is_prior_minus_explained_plus_noise', var[0, 0], var_ref)
     for c in range(d):
         dk = [gp.var * E[j] * (-(x[c] - gp.Xl[j][c]) / (gp.ls * gp.ls)) for j in range(n)]
-        ctx.claim_poly('gradient_of_mean_%d' % c, gmu[0, c], Sum([dk[j] * gp.wv[j][0] for j in range(n)]))
-        ctx.claim_poly('gradient_of_variance_%d' % c, gvar[0, c],
+        ctx.claim_poly(tag + 'gradient_of_mean_%d' % c, gmu[0, c], Sum([dk[j] * gp.wv[j][0] for j in range(n)]))
+        ctx.claim_poly(tag + 'gradient_of_variance_%d' % c, gvar[0, c],
                        -2 * Sum([dk[a] * gp.Winv[a][b] * k[b] for a in range(n) for b in range(n)]))
+
+
+
+
+def h_fast_gp_history(ctx, n, d):
+    """Sampling phase, back to fitting (one ordinary prediction), hyper-parameters re-optimised, second sampling phase:
+    the accelerated path must describe the GP with the NEW hyper-parameters."""
+    ctx.assume_nonzero_divisors = True
+    with gp_env(ctx):
+        reg = mk_reg(ctx, n, d)
+        gpA = reg._gp
+        gpB = FakeGP(ctx, n, d, tag='_new')
+        gpA.optimize = lambda *a, **k: setattr(reg, '_gp', gpB)
+        reg.optimizer, reg.max_opt_iters = 'scg', 10
+        x = [ctx.real('q%d' % c) for c in range(d)]
+        xa = ctx.array([x])
+        reg.predict(xa)                      # first sampling phase (caches)
+        reg.predictive_gradients(xa)
+        reg.is_sampling = False
+        reg.predict(xa)                      # ordinary use between the phases
+        reg.optimize()
+        reg.is_sampling = True
+        if ctx.symbolic:
+            del ctx.uf_apps['EXP'][:]        # only the exponentials of the second phase are matched below
+        mu, var = reg.predict(xa)
+        gmu, gvar = reg.predictive_gradients(xa)
+    textbook_claims(ctx, 'after_reoptimisation_', gpB, n, d, x, mu, var, gmu, gvar)
 
 
 def h_update(ctx, n, d, m):
@@ -332,6 +369,9 @@ HARNESSES = [
     H('fast_gp_n1_d1', h_fast_gp, dict(n=1, d=1), bounds='1 evidence point, dim 1'),
     H('fast_gp_n2_d1', h_fast_gp, dict(n=2, d=1), bounds='2 evidence points, dim 1'),
     H('fast_gp_n2_d2', h_fast_gp, dict(n=2, d=2), bounds='2 evidence points, dim 2', path_timeout=600),
+    H('fast_gp_history_n1_d1', h_fast_gp_history, dict(n=1, d=1),
+      bounds='sampling, ordinary prediction, re-optimised hyper-parameters, sampling again; 1 evidence point, dim 1'),
+    H('fast_gp_history_n2_d1', h_fast_gp_history, dict(n=2, d=1), bounds='same history, 2 evidence points', tiers=('thorough',)),
     H('update_n2_d2_m1', h_update, dict(n=2, d=2, m=1), bounds='2 old + 1 new evidence, dim 2'),
     H('update_n1_d1_m2', h_update, dict(n=1, d=1, m=2), bounds='1 old + 2 new evidence, dim 1'),
 ]
